@@ -42,6 +42,16 @@ inductive Violation where
   /-- bytes on a stream this endpoint cannot send on (the peer's unidirectional stream, a
       server-initiated bidirectional stream without an extension) -/
   | notOurStream
+  /-- h3 reset (RESET_STREAM) its own control or QPACK stream (§6.2.1: closure of a critical
+      stream, by either side, is a connection error) -/
+  | criticalReset
+  /-- a second control / QPACK encoder / QPACK decoder stream (§6.2.1, RFC 9204 §4.2: exactly
+      one each per endpoint) -/
+  | duplicateCritical (ty : Nat)
+  /-- bytes handed to the transport after FIN or RESET_STREAM of that stream (RFC 9000 §3.1) -/
+  | writeAfterEnd
+  /-- `send_data` while the previous `WriteBuf` was still being written (frames would interleave) -/
+  | overlappingWrite
 deriving Repr, DecidableEq
 
 /-- who wrote the log, and whether WebTransport was enabled by that endpoint -/
@@ -164,5 +174,121 @@ def checkStream (cx : Ctx) (sid : Nat) (w : Bytes) (fin : Bool) : Option Violati
     (if cx.server then (if w = [] then none else some .notOurStream) else checkUni cx w fin)
   else
     (if cx.server then checkUni cx w fin else (if w = [] then none else some .notOurStream))
+
+/-! ### the judgement with a demand for whole frames, and over a whole endpoint
+
+`checkStream` judges an OPEN stream as a prefix.  That is all that can be asked while a write is in
+progress.  Once the stream is quiescent — nothing is being written on it, no call on it is pending,
+h3 has not reset it, the peer has not stopped it, the connection has not ended and no call was
+abandoned — everything h3 wrote there consists of whole calls, each of which writes whole frames:
+`whole = true` demands a whole number of frames although the stream is open (a DATA frame that
+declares 5 bytes and carries 1 on a stream nobody writes on any more is `truncated`).  With
+`whole = false` the judgement is `checkStream` (`checkStreamW_false`). -/
+
+/-- the control stream after its type byte; `whole`: no frame may be incomplete -/
+def checkControlBodyW (server : Bool) (w : Bytes) (whole : Bool) : Option Violation :=
+  if w = [] then none
+  else frameStep firstTyOk firstPayOk
+    (fun r => walk (ctlTyOk server) ctlPayOk (r.length + 1) r whole) w whole
+
+def checkUniW (cx : Ctx) (w : Bytes) (fin whole : Bool) : Option Violation :=
+  match rfcDecode w with
+  | none => if w = [] then endOr fin else endOr (fin || whole)
+  | some (ty, r) =>
+    if ty = 0x00 then (if fin then some .criticalClosed else checkControlBodyW cx.server r whole)
+    else if ty = 0x02 || ty = 0x03 then (if fin then some .criticalClosed else none)
+    else if ty = 0x01 then
+      (if cx.server then
+        (match rfcDecode r with
+         | none => endOr (fin || whole)
+         | some (_, r2) => checkRequest r2 (fin || whole))
+       else some (.badStreamType ty))
+    else if ty = 0x54 then
+      (if cx.wt then (match rfcDecode r with | none => endOr (fin || whole) | some _ => none)
+       else some (.badStreamType ty))
+    else if isReserved ty then none
+    else some (.badStreamType ty)
+
+def checkStreamW (cx : Ctx) (sid : Nat) (w : Bytes) (fin whole : Bool) : Option Violation :=
+  if sid % 4 = 0 then (if wtBidi cx w then none else checkRequest w (fin || whole))
+  else if sid % 4 = 1 then
+    (if w = [] ∨ wtBidi cx w then none else some .notOurStream)
+  else if sid % 4 = 2 then
+    (if cx.server then (if w = [] then none else some .notOurStream) else checkUniW cx w fin whole)
+  else
+    (if cx.server then checkUniW cx w fin whole else (if w = [] then none else some .notOurStream))
+
+/-- what the transport saw of one stream of the endpoint -/
+structure Obs where
+  sid : Nat
+  tx : Bytes
+  fin : Bool
+  /-- a write is in progress, or a call on this stream has not returned -/
+  busy : Bool
+  /-- the stream may end anywhere: h3 reset it, the peer sent STOP_SENDING for it, the connection
+      has ended, or the application abandoned a call on it (R-14) -/
+  cut : Bool
+  /-- h3 reset the stream -/
+  rst : Bool
+  /-- bytes were handed over after FIN / RESET_STREAM -/
+  misuse : Bool
+  /-- `send_data` while a write was in progress -/
+  overlap : Bool
+deriving Repr, DecidableEq
+
+/-- a unidirectional stream of this endpoint -/
+def ownUni (cx : Ctx) (sid : Nat) : Bool := sid % 4 == (if cx.server then 3 else 2)
+
+/-- the stream type of an own unidirectional stream, once it is complete -/
+def uniTypeOf (cx : Ctx) (o : Obs) : Option Nat :=
+  if ownUni cx o.sid then (rfcDecode o.tx).map (·.1) else none
+
+def isCriticalTy (ty : Nat) : Bool := ty == 0x00 || ty == 0x02 || ty == 0x03
+
+def checkObs (cx : Ctx) (o : Obs) : Option Violation :=
+  if o.misuse then some .writeAfterEnd
+  else if o.overlap then some .overlappingWrite
+  else if o.rst && (match uniTypeOf cx o with | some ty => isCriticalTy ty | none => false) then
+    some .criticalReset
+  else
+    -- a FIN the transport took AFTER the send side had ended (h3's RESET_STREAM, the peer's
+    -- STOP_SENDING - to which a QUIC transport answers RESET_STREAM itself, RFC 9000 §3.5 -, the
+    -- end of the connection) finishes nothing: the stream is judged as the prefix it is.  Not so on
+    -- a control / QPACK stream, where FIN is a violation whenever it is there.
+    let ended := o.cut || o.rst
+    let critical := match uniTypeOf cx o with | some ty => isCriticalTy ty | none => false
+    checkStreamW cx o.sid o.tx (o.fin && (critical || !ended)) (!o.busy && !ended)
+
+/-- the second stream of a type of which an endpoint opens exactly one -/
+def firstDuplicate (cx : Ctx) (ty : Nat) (os : List Obs) : Option Nat :=
+  match os.filter (fun o => uniTypeOf cx o == some ty) with
+  | _ :: o2 :: _ => some o2.sid
+  | _ => none
+
+/-- Everything one endpoint wrote: every stream by itself, then at most one control, one QPACK
+    encoder and one QPACK decoder stream.  `none` = valid. -/
+def checkEndpoint (cx : Ctx) (os : List Obs) : Option (Nat × Violation) :=
+  match os.findSome? (fun o => (checkObs cx o).map (fun v => (o.sid, v))) with
+  | some r => some r
+  | none =>
+    [0x00, 0x02, 0x03].findSome? (fun ty =>
+      (firstDuplicate cx ty os).map (fun sid => (sid, Violation.duplicateCritical ty)))
+
+theorem checkControlBodyW_false (server : Bool) (w : Bytes) :
+    checkControlBodyW server w false = checkControlBody server w := rfl
+
+theorem checkUniW_false (cx : Ctx) (w : Bytes) (fin : Bool) :
+    checkUniW cx w fin false = checkUni cx w fin := by
+  unfold checkUniW checkUni
+  simp only [Bool.or_false, checkControlBodyW_false]
+  cases rfcDecode w with
+  | none => simp
+  | some p => rfl
+
+/-- without the demand the judgement is the prefix judgement -/
+theorem checkStreamW_false (cx : Ctx) (sid : Nat) (w : Bytes) (fin : Bool) :
+    checkStreamW cx sid w fin false = checkStream cx sid w fin := by
+  unfold checkStreamW checkStream
+  simp only [Bool.or_false, checkUniW_false]
 
 end H3.Spec.Output
